@@ -1,6 +1,6 @@
 """C20 — repr never fails and never misstates shape, dtype or data."""
 import datetime, itertools, math
-from values import Interner, dtype_wire, err_class
+from values import Interner, dtype_wire, err_class, storage
 from extract_consts import Foo, Bar, Baz
 
 PID = "C20"
@@ -285,13 +285,13 @@ def cell_wire(v):
 
 
 def col_wire(col):
-    n = col._name
+    n = col.name
     if n is not None and not isinstance(n, str):
-        return {"name": None, "shown": "", "san": None, "lower": "", "dtype": dtype_wire(col._dtype),
-                "cells": [cell_wire(v) for v in col._underlying]}
+        return {"name": None, "shown": "", "san": None, "lower": "", "dtype": dtype_wire(col.schema()),
+                "cells": [cell_wire(v) for v in storage(col)]}
     disp = n or ""
     return {"name": n, "shown": repr(disp) if _needs_quote(disp) else disp, "san": _sanitize(n) if n else None,
-            "lower": disp.lower(), "dtype": dtype_wire(col._dtype), "cells": [cell_wire(v) for v in col._underlying]}
+            "lower": disp.lower(), "dtype": dtype_wire(col.schema()), "cells": [cell_wire(v) for v in storage(col)]}
 
 
 def _vec_state(I, v):
